@@ -150,6 +150,10 @@ PINS = [
     ("crawler_start_slice", CRAWLER, "ShareCrawler", "start_slice"),
     ("crawler_start_current_prefix", CRAWLER, "ShareCrawler", "start_current_prefix"),
     ("crawler_process_prefixdir", CRAWLER, "ShareCrawler", "process_prefixdir"),
+    ("crawler_serializer_save", CRAWLER, "_LeaseStateSerializer", "save"),
+    ("crawler_serializer_load", CRAWLER, "_LeaseStateSerializer", "load"),
+    ("crawler_dump_json_to_file", CRAWLER, None, "_dump_json_to_file"),
+    ("fileutil_move_into_place", "src/allmydata/util/fileutil.py", None, "move_into_place"),
     ("expirer_init", EXPIRER, "LeaseCheckingCrawler", "__init__"),
     ("expirer_process_bucket", EXPIRER, "LeaseCheckingCrawler", "process_bucket"),
     ("expirer_process_share", EXPIRER, "LeaseCheckingCrawler", "process_share"),
